@@ -480,6 +480,12 @@ func genC19(tier string, r *rng, emit func(string)) {
 			emit(fmt.Sprintf("prog f64 new:rm:2,3:1;new:rm:2,3:11;new:rm:%s:50;%s;new:rm:4,5:0;new:rm:2,3:70;clone:0;slice:0:0.1.1", dsh, op))
 		}
 	}
+	// products: negative contraction axes (the caller's axes lists stay as passed), column-major
+	// column vectors through Outer (operands restored)
+	for _, c := range []string{"new:rm:2,3,4:1;new:rm:4,3,2:2;tmul:0:1:-1,1:-3,1", "new:rm:2,3:1;new:rm:3,2:2;tmul:0:1:-1:0",
+		"new:cm:3,1:1;new:cm:2,1:2;lin:outer:0:1:safe", "new:cm:3:1;new:cm:2:2;lin:outer:0:1:safe;new:rm:2,2:0"} {
+		emit("prog f64 " + c)
+	}
 	// a rank-0 tensor used as the scalar operand of a safe operation is an operand like any other:
 	// it must come out unchanged (and stay usable) whatever the operation and the side
 	for _, op := range []string{"add", "sub", "mul", "div", "mod", "pow"} {
